@@ -190,8 +190,11 @@ claim("C15",
 claim("C19",
       "Decides that the highlighter contains no unchecked slicing/indexing/unwrap, slices only through str::get, and that append_span — "
       "the only place spans are pushed — starts every span at (a maximum with) current_byte_index with both bounds clamped to character "
-      "boundaries and advances the cursor on every path: ordered / contiguous / non-overlapping / char-aligned hold structurally.",
-      "Trusted: rustc MIR. Not decided: that the final cursor equals the line length for every line.",
+      "boundaries (themselves clamped to the line length) and advances the cursor on every path; that every path of highlight_program ends "
+      "with a span/skip up to global_offset + line.len() and highlight_command runs it over the whole line at offset 0; and that the renderer "
+      "pushes the text of every span (slice of the line by the span's own range): ordered / contiguous / non-overlapping / char-aligned / "
+      "covering hold structurally.",
+      "Trusted: rustc MIR; str::get returns None instead of panicking. Not decided: which kind a span gets; that tokenizer offsets are the true piece offsets.",
       ST + "scoped construct inventory + value provenance of span bounds", "DESIGN.md §3 C19")
 
 claim("C05",
